@@ -35,6 +35,10 @@ def _kw(args):
     return out
 
 
+def _pos(args):
+    return [a for a in args if "=" not in a.split("(", 1)[0]]
+
+
 def _atoms(t):
     return {x for x in subterms(t) if destruct(x)[0] is None and x and not x.startswith(("g:", "rx:"))}
 
@@ -138,12 +142,15 @@ def r1_pool_chain(ctx, R1):
             ok = (a[:2] == ["host", "port"]) or (k.get("host") == "host" and k.get("port") == "port") or (a[:1] == ["host"] and k.get("port") == "port")
     ctx.ob(R1, pi.qual, "the pool keeps the host and port it was created for (base constructor receives them unchanged)", ok)
     newpool = m.func(f"{PM}.PoolManager._new_pool")
-    rets = [r_ for r_ in astq.walk_fn(newpool.node) if isinstance(r_, ast.Return) and isinstance(r_.value, ast.Call)]
-    ok = False
-    for r_ in rets:
-        a = [astq.text(x) for x in r_.value.args]
-        k = {x.arg: astq.text(x.value) for x in r_.value.keywords if x.arg}
-        ok = ok or a[:2] == ["host", "port"] or (k.get("host") == "host" and k.get("port") == "port")
+    # decided on the effect rows of _new_pool (helpers interpreted in place, *args displays flattened)
+    nrows = [r_ for r_ in rows_of(ctx, newpool) if r_.returns]
+    ok = bool(nrows)
+    for r_ in nrows:
+        op_, a_ = destruct(r_.ret or "")
+        pos_, kw_ = _pos(list(a_[1:])) if op_ == "call" else [], _kw(list(a_[1:])) if op_ == "call" else {}
+        h_ = kw_.get("host", pos_[0] if pos_ else None)
+        p_ = kw_.get("port", pos_[1] if len(pos_) > 1 else None)
+        ok = ok and op_ == "call" and h_ == "p:host" and p_ == "p:port"
     ctx.ob(R1, newpool.qual, "pool_cls(host, port, ...) receives the context's host and port", ok)
 
 
